@@ -208,8 +208,20 @@ def forwarding_rule(prog: Program, rep, RID: str):
                 continue
             v = passed.get(p)
             want = {f"self.{p}", f"self.{RENAMED.get(p, p)}"}
-            if p == "solver_options":
-                want |= {"fd_solver_options", "i_solver_options"}
+            if p == "solver_options" and v not in want:
+                # a private copy of the caller's options (with the remaining time): follow the local back to its origin
+                seen_names = set()
+                cur_name = v
+                for _ in range(4):
+                    if cur_name is None or cur_name in seen_names or not re.fullmatch(r"\w+", cur_name or ""):
+                        break
+                    seen_names.add(cur_name)
+                    srcs = [norm(a.value) for a in walk_no_nested(solve.node) if isinstance(a, ast.Assign) and any(isinstance(t, ast.Name) and t.id == cur_name for t in a.targets)]
+                    if any("self.solver_options" in s_ for s_ in srcs):
+                        want.add(v)
+                        break
+                    nxt = [s_ for s_ in srcs if re.fullmatch(r"\w+", s_)]
+                    cur_name = nxt[0] if nxt else None
             if v in want:
                 rep.ok(RID, key, f"{p}={v}", solve.loc(c), sample={"wrapper": wname, "k-model": kname, "param": p, "value": v})
             else:
